@@ -71,6 +71,9 @@ def deliver_terms(out):
         e = v
         if e.cls is not None and e.cls.name == "RetryExhaustedError":
             return ("ree",) + tuple(tr(e.fields[k]) for k in ("stop_reason", "attempts", "last_class", "last_exception", "last_result", "next_sleep_s"))
+        if e.cls is not None or e.tag in ("raised-by-code", "sleep_fn-invalid-return", "library-abort"):
+            # an exception object constructed by the library itself: compared by class (its identity is a creation site)
+            return ("exc", e.tag, tr(e.cls_t), "library-created")
         return ("exc", e.tag, tr(e.cls_t), tr(e.ident))
     if isinstance(v, Obj) and v.cls is not None and v.cls.name == "RetryOutcome":
         return ("outcome",) + tuple(tr(v.fields[k]) for k in ("ok", "value", "stop_reason", "attempts", "last_class", "last_exception",
